@@ -373,6 +373,7 @@ class StmtMixin:
             return self.loop_handlers[key](self, n, st)
 
         def f(it, s):
+            it = self.unopt(s, it)
             if isinstance(it, Ref) and s.get(it).get("__kind__") == "glist":
                 return self.hooks.glist_for(self, s, n, it)
             items = self.iter_items(it, s)
